@@ -993,6 +993,9 @@ func (c *FuncCtx) execRange(st *State, x *ast.RangeStmt) []outcome {
 	}
 	// generic: the invariant-based treatment of the loop from position (k0, cnt0)
 	generic := func(st *State, k0, cnt0 string) {
+		if li.entry == nil {
+			li.entry = st.clone()
+		}
 		c.checkInv(st, withPos(k0, cnt0), inv, "init")
 		h := st.clone()
 		c.havocLoop(h, li)
